@@ -76,6 +76,13 @@ func (p *Plan) Clone() *Plan {
 	if err := json.Unmarshal(b, &q); err != nil {
 		panic(err)
 	}
+	if q.Cfg.Notes == nil {
+		q.Cfg.Notes = map[string]string{}
+	}
+	if q.Cfg.Extra == nil {
+		q.Cfg.Extra = map[string]int64{}
+	}
+	q.Cfg.DBPath = p.Cfg.DBPath
 	return &q
 }
 
